@@ -146,6 +146,12 @@ class Sub:
     def __eq__(self, other):
         return self is other
 
+    async def on_update(self, *a, **kw):
+        """The same subscriber as a bound method: `sub.on_update` is a fresh (equal, not
+        identical) object on every attribute access, as in `x.subscribe(obj.handler)` followed
+        by `x.unsubscribe(obj.handler)`."""
+        return await self(*a, **kw)
+
     async def __call__(self, *a, **kw):
         self.calls.append((a, kw))
         self.log.add("SUB.call", name=self.name, args=a, kwargs=kw)
